@@ -1311,13 +1311,43 @@ func (in *interp) callPureRecv(f *types.Func, recv val) *val {
 }
 
 // nextHasNulGuard: inside Next(), before the call through the step field, there is
-// an `if <byte> == 0 { return nil, <non-nil> }`.
+// an `if <byte> == 0 { return nil, <non-nil> }` -- in Next itself, or in a helper of the package whose error Next
+// tests and returns (`c, je := s.currentByte(); if je != nil { return nil, je }`).
 func (in *interp) nextHasNulGuard(next *types.Func) bool {
-	if next == nil || in.decls[next] == nil {
+	return in.nulGuardIn(next, 0)
+}
+
+func (in *interp) nulGuardIn(fn *types.Func, depth int) bool {
+	if fn == nil || in.decls[fn] == nil || depth > 2 {
+		return false
+	}
+	body := in.decls[fn].Body
+	isZero := func(e ast.Expr) bool {
+		tv, ok := in.pkg.TypesInfo.Types[e]
+		if !ok || tv.Value == nil {
+			return false
+		}
+		v, ok := constant.Int64Val(constant.ToInt(tv.Value))
+		return ok && v == 0
+	}
+	isByte := func(e ast.Expr) bool {
+		t := in.pkg.TypesInfo.TypeOf(e)
+		if t == nil {
+			return false
+		}
+		b, ok := t.Underlying().(*types.Basic)
+		return ok && b.Kind() == types.Uint8
+	}
+	returnsErr := func(list []ast.Stmt) bool {
+		for _, s := range list {
+			if r, ok := s.(*ast.ReturnStmt); ok && len(r.Results) >= 1 && !isNilIdent(r.Results[len(r.Results)-1]) {
+				return true
+			}
+		}
 		return false
 	}
 	found := false
-	ast.Inspect(in.decls[next].Body, func(n ast.Node) bool {
+	ast.Inspect(body, func(n ast.Node) bool {
 		ifs, ok := n.(*ast.IfStmt)
 		if !ok {
 			return true
@@ -1326,29 +1356,56 @@ func (in *interp) nextHasNulGuard(next *types.Func) bool {
 		if !ok || be.Op != token.EQL {
 			return true
 		}
-		isZero := func(e ast.Expr) bool {
-			tv, ok := in.pkg.TypesInfo.Types[e]
-			if !ok || tv.Value == nil {
-				return false
-			}
-			v, ok := constant.Int64Val(constant.ToInt(tv.Value))
-			return ok && v == 0
-		}
-		isByte := func(e ast.Expr) bool {
-			t := in.pkg.TypesInfo.TypeOf(e)
-			if t == nil {
-				return false
-			}
-			b, ok := t.Underlying().(*types.Basic)
-			return ok && b.Kind() == types.Uint8
-		}
 		if !((isZero(be.Y) && isByte(be.X)) || (isZero(be.X) && isByte(be.Y))) {
 			return true
 		}
-		for _, s := range ifs.Body.List {
-			if r, ok := s.(*ast.ReturnStmt); ok && len(r.Results) == 2 && !isNilIdent(r.Results[1]) {
-				found = true
+		if returnsErr(ifs.Body.List) {
+			found = true
+		}
+		return true
+	})
+	if found {
+		return true
+	}
+	// a helper whose error is tested and returned
+	ast.Inspect(body, func(n ast.Node) bool {
+		as, ok := n.(*ast.AssignStmt)
+		if !ok || len(as.Rhs) != 1 || len(as.Lhs) < 1 {
+			return true
+		}
+		call, ok := ast.Unparen(as.Rhs[0]).(*ast.CallExpr)
+		if !ok {
+			return true
+		}
+		g := in.callee(call)
+		if g == nil || in.decls[g] == nil || in.isStep(g) {
+			return true
+		}
+		eid, ok := as.Lhs[len(as.Lhs)-1].(*ast.Ident)
+		if !ok || eid.Name == "_" {
+			return true
+		}
+		eobj := in.pkg.TypesInfo.Defs[eid]
+		if eobj == nil {
+			eobj = in.pkg.TypesInfo.Uses[eid]
+		}
+		tested := false
+		ast.Inspect(body, func(m ast.Node) bool {
+			ifs, ok := m.(*ast.IfStmt)
+			if !ok || ifs.Pos() < as.End() {
+				return true
 			}
+			be, ok := ast.Unparen(ifs.Cond).(*ast.BinaryExpr)
+			if !ok || be.Op != token.NEQ || !isNilIdent(be.Y) {
+				return true
+			}
+			if id, ok := ast.Unparen(be.X).(*ast.Ident); ok && in.pkg.TypesInfo.Uses[id] == eobj && returnsErr(ifs.Body.List) {
+				tested = true
+			}
+			return true
+		})
+		if tested && in.nulGuardIn(g, depth+1) {
+			found = true
 		}
 		return true
 	})
